@@ -126,7 +126,7 @@ def gen_case(rng, idx, tier):
         for u in UNKNOWN:
             if rng.random() < 0.12:
                 (topts if rng.random() < 0.5 else kopts)[u] = rng.choice([1, "x", None])
-        targets.append({"name": "tgt%d" % i if rng.random() < 0.8 else "tgt.%d_x" % i, "wd_name": rng.choice(WD_NAMES), "spec": spec, "fails": fails, "uid": uid, "topts": topts, "kopts": kopts})
+        targets.append({"name": "tgt%d" % i if rng.random() < 0.8 else "tgt.%d_x" % i, "wd_name": PROJECT_DIR if rng.random() < 0.2 else rng.choice(WD_NAMES), "spec": spec, "fails": fails, "uid": uid, "topts": topts, "kopts": kopts})
     return {"sched": sched, "log_mode": log_mode, "wf_defaults": wf_defaults, "targets": targets, "clean_logs": rng.choice([True, True, False]), "accounting": rng.random() < 0.8, "proj_name": rng.choice(PROJ_NAMES)}
 
 
@@ -212,14 +212,20 @@ def observed_directives(sched, job):
     return obs
 
 
+PROJECT_DIR = "@PROJECT@"  # wd_name of a target that lives in the project directory itself (no working_dir given)
+
+
+def wd_of(proj, t):
+    return proj.root if t["wd_name"] == PROJECT_DIR else os.path.join(proj.root, "wds", t["wd_name"])
+
+
 def render(case, proj):
     lines = ["from gwf import Workflow, AnonymousTarget", "gwf = Workflow(defaults=%r)" % (case["wf_defaults"],), ""]
     for t in case["targets"]:
-        wd = os.path.join(proj.root, "wds", t["wd_name"])
+        wd = wd_of(proj, t)
         kw = "".join(", %s=%r" % (k, v) for k, v in t["kopts"].items())
-        lines.append(
-            "gwf.target_from_template(%r, AnonymousTarget(inputs=[], outputs=[], options=%r, spec=%r, working_dir=%r)%s)" % (t["name"], t["topts"], t["spec"], wd, kw)
-        )
+        wdarg = "" if t["wd_name"] == PROJECT_DIR else ", working_dir=%r" % wd
+        lines.append("gwf.target_from_template(%r, AnonymousTarget(inputs=[], outputs=[], options=%r, spec=%r%s)%s)" % (t["name"], t["topts"], t["spec"], wdarg, kw))
     return "\n".join(lines) + "\n"
 
 
@@ -233,7 +239,7 @@ def run_case(case):
     sched = case["sched"]
     with gen.Project(name=case.get("proj_name", "proj")) as proj:
         for t in case["targets"]:
-            os.makedirs(os.path.join(proj.root, "wds", t["wd_name"]), exist_ok=True)
+            os.makedirs(wd_of(proj, t), exist_ok=True)
         proj.write_workflow(render(case, proj))
         cfg = {"backend": sched, "clean_logs": case["clean_logs"]}
         if sched == "slurm":
@@ -322,7 +328,7 @@ def run_case(case):
                 if (m.get("oo"), m.get("eo")) != (so, se):
                     res.violation("log-directive", "%s: -oo/-eo %s" % (t["name"], (m.get("oo"), m.get("eo"))))
             # ---- execute
-            wd = os.path.join(proj.root, "wds", t["wd_name"])
+            wd = wd_of(proj, t)
             ref_rc, ref_out, ref_err = reference_run(t["spec"], wd)
             sim.start(job["id"])
             info = sim.finish(job["id"], real=True)
